@@ -30,10 +30,11 @@ func (e *executionContext) AppendLog(ctx context.Context, log *ledger.Log) (*led
 }
 
 // appendTransactionLog allocates the next transaction id, builds the log with
-// it, chains it and hands it to the batcher, all under appendMu.
+// it, chains it and hands it to the batcher, all under appendMu. In dry run
+// mode nothing is allocated: the log is built with the id a real write would get.
 func (e *executionContext) appendTransactionLog(ctx context.Context, logBuilder func(txID *big.Int) *ledger.Log) (*ledger.ChainedLog, chan struct{}, error) {
 	if e.parameters.DryRun {
-		return e.AppendLog(ctx, logBuilder(e.commander.nextTXID()))
+		return e.AppendLog(ctx, logBuilder(e.commander.peekTXID()))
 	}
 
 	e.commander.appendMu.Lock()
